@@ -154,7 +154,7 @@ func registerSched() {
 		RuleText: genRule + "Statement lifecycle hooks (build tag verif): canonical dump of the session before a statement's first operation and at every checkpoint, compared after Discard / Rollback; Cache calls of every Commit compared with the net effect of the valid operations. Non-trivial: a case with >= 2 judged discards/rollbacks and >= 1 judged commit.",
 		Assume: []string{"dump excludes tasksToAllocate caches, fit errors, topology scratch scores and GPUGroups of pods that are not on a node",
 			"a discard/rollback is judged only if no other statement with pending operations was alive and no commit happened in between"}})
-	run.Register(&SchedCheck{Id: "C10", Profile: "mixed", Quick: 1600, Thorough: 40000, PanicIsViolation: true, TimeoutCase: 20 * time.Second,
+	run.Register(&SchedCheck{Id: "C10", Profile: "mixed", Quick: 1600, Thorough: 40000, PanicIsViolation: true, TimeoutCase: 10 * time.Second,
 		Mutate: func(c *spec.Case, seed int64, idx int) {
 			r := gen.NewRand(seed, idx, 10)
 			c.Faults = spec.Faults{}
@@ -194,6 +194,6 @@ func registerSched() {
 			return []run.Violation{oracle.Viol("C10", "control-workload-not-scheduled", strings.Join(muts, "+"), 0,
 				"the healthy control workload (own queue %s, dedicated node %s) was not bound in %d cycles; malformed objects: %v", gen.ControlQueue, gen.ControlNode, len(hist), muts)}
 		},
-		RuleText: genRule + "Each case = a valid cluster + 1-5 malformed-object mutations (queue self-parent / cycles / missing parents / nil resources / absurd quotas, bad sub-group graphs, non-positive or huge minimums, pods without containers or pod group, garbage GPU annotations incl. NaN/Inf/overflow, nodes without labels / zero, negative or empty allocatable / garbage GPU labels, dangling BindRequests, empty topologies, missing priority classes) + a healthy control workload on its own queue and node. Oracle: no panic (in-process recover or worker crash), termination (20 s watchdog, ~150x a normal cycle; a worker killed by the watchdog counts as a hang only if a goroutine is running inside KAI code), control workload bound. Non-trivial: a case with >= 1 mutation.",
+		RuleText: genRule + "Each case = a valid cluster + 1-5 malformed-object mutations (queue self-parent / cycles / missing parents / nil resources / absurd quotas, bad sub-group graphs, non-positive or huge minimums, pods without containers or pod group, garbage GPU annotations incl. NaN/Inf/overflow, nodes without labels / zero, negative or empty allocatable / garbage GPU labels, dangling BindRequests, empty topologies, missing priority classes) + a healthy control workload on its own queue and node. Oracle: no panic (in-process recover or worker crash), termination (10 s watchdog (~75x a normal cycle), a watchdog is confirmed by re-running the case alone with 40 s; a worker killed by the watchdog counts as a hang only if a goroutine is running inside KAI code), control workload bound. Non-trivial: a case with >= 1 mutation.",
 		Assume:   []string{"a watchdog firing without a running KAI goroutine is inconclusive", "every 8th case carries no mutation (well-formed input)"}})
 }
